@@ -2,10 +2,13 @@
 pool.py / job_private.py (run over minisql) must not return a job of an uncommitted update; (2) at the end of a history the content of
 every never-committed update is erased from the history (its createUpdate is kept so that ids do not shift), the erased history is run
 in a second World, and jobs / groups / batches / user counters / cancel marks of everything else are compared after every kept op."""
-from ..batchdb.prop import E1Prop
+from ..batchdb import actors
+from ..batchdb.prop import ActorCasesMixin, E1Prop
 
 
-class C41(E1Prop):
+class C41(ActorCasesMixin, E1Prop):
+    actor_share = 0.25
+    actor_flavour = 'c41'
     id = 'C41'
     title = 'Uncommitted updates have no effect on a batch'
     design_ref = 'DESIGN.md §4 C41 (Engine E1)'
@@ -15,7 +18,7 @@ class C41(E1Prop):
     level_text = ('Oracle 1 after every op: no job of an uncommitted update is returned by the real scheduler SELECTs (pool.py user_runnable_jobs, job_private.py '
                   'user_runnable_jobs). Oracle 2 at the end of every history: for each never-committed update, the history without its content leaves jobs, groups '
                   '(state, n_jobs, tallies), batches (state, n_jobs), user counters and cancel marks of everything else identical after every kept op. '
-                  'Lean theorem uncommitted_invisible(_partial) when Props/C41.lean exists.')
+                  'Lean theorem uncommitted_invisible(_partial) when Props/C41.lean exists. A quarter of the cases run the REAL canceller loops and scheduler over a batch whose first update was inserted but never committed, next to a committed batch of the same user, both cancelled: no loop pass changes a job row of the uncommitted update, its batch keeps zero tallies, the user counters stay the recount over committed jobs.')
     level_note = ('Partial: the server is harness/minisql, every transaction is one atomic step, histories are generated; erasure keeps the createUpdate request '
                   '(so the reserved id ranges stay) and removes the update\'s bunches and every message about its jobs / groups. Known findings: see known_findings.json.')
 
@@ -26,6 +29,10 @@ class C41(E1Prop):
     def make_history(self, rng):
         from ..batchdb import gen
         return gen.history(rng, commit_modes=(0.3, 0.8), min_updates=2)
+
+
+    def actor_checks(self):
+        return ([actors.uncommitted_untouched], [])
 
 
 PROP = C41()
